@@ -143,14 +143,14 @@ end C02
 /-! ### C03 — reply belongs to the request; nothing pending on an ended actor -/
 namespace C03
 
-def replyIntegrity (ev : List Ev) : Bool :=
-  let rec go (seen : List Ev) : List Ev → Bool
-    | [] => true
-    | e :: es =>
-      (match e with
-       | .ret oid (.reply m) _ => m == oid && seen.any (fun | .handlerEnd h .ok => h == oid | _ => false)
-       | _ => true) && go (e :: seen) es
-  go [] ev
+/-- fold state: (requests whose handler has completed normally, ok so far) -/
+def riStep (st : List Nat × Bool) : Ev → List Nat × Bool
+  | .handlerEnd m .ok => (m :: st.1, st.2)
+  | .ret oid (.reply m) _ => (st.1, st.2 && (m == oid) && st.1.contains oid)
+  | _ => st
+
+/-- an ask that returns Ok(v) returns the value produced for that very request, after its handler ran -/
+def replyIntegrity (ev : List Ev) : Bool := (ev.foldl riStep ([], true)).2
 
 def pendingOps (ev : List Ev) : List Nat :=
   (ev.filterMap fun | .issued o _ _ _ => some o | _ => none).filter fun o =>
@@ -309,16 +309,38 @@ def killTotal (ev : List Ev) : Bool :=
     | [] => true
   go ev
 
-/-- after the first kill() that returned while the actor had not begun to stop: at most one further
-    handler start; the actor's on_stop sees killed=true unless a crash or a dequeued stop marker intervenes -/
-def killBound (ev : List Ev) : Bool :=
+/-- fold state for `killBound`: has the actor begun to stop; has a kill() been issued while it had
+    not; handler starts since then -/
+structure KB where
+  stopped : Bool := false
+  armed : Bool := false
+  starts : Nat := 0
+  deriving DecidableEq, Repr
+
+def kbStep (m : KB) : Ev → KB
+  | .issued _ .kill _ _ => if m.stopped then m else { m with armed := true }
+  | .handlerStart _ => if m.armed then { m with starts := m.starts + 1 } else m
+  | .stopStart _ => { m with stopped := true }
+  | .joined _ => { m with stopped := true }
+  | _ => m
+
+def kb (ev : List Ev) : KB := ev.foldl kbStep {}
+
+/-- once kill() has been called on an actor that had not begun to stop, at most one further
+    message handler starts, however many messages are queued -/
+def killBound (ev : List Ev) : Bool := decide ((kb ev).starts ≤ 1)
+
+/-- on the paused single-thread runtime the kill is consumed before the next dequeue: no further start -/
+def killBoundAtomic (ev : List Ev) : Bool := decide ((kb ev).starts = 0)
+
+/-- …and its on_stop sees killed=true unless a crash or a dequeued stop marker intervenes -/
+def killOutcome (ev : List Ev) : Bool :=
   match idxOf? (isKillRet ev) ev with
   | none => true
   | some p =>
     if anyBefore isStopStart ev p || anyBefore isJoined ev p || anyBefore isPanicEv ev p
        || anyBefore (fun | .startEnd .err => true | _ => false) ev p then true
     else
-      decide (countP isAnyStart (ev.drop p) ≤ 1) &&
       (match idxOf? isStopStart ev with
        | some q =>
          (match ev[q]? with
@@ -340,7 +362,7 @@ def leftoversFail (ev : List Ev) : Bool :=
         ev.any (fun | .ret o r _ => o == oid && (r == .receive || r == .timeout) | _ => false)
       | _ => true)
 
-def ok (t : Trace) : Bool := killTotal t.ev && killBound t.ev && leftoversFail t.ev
+def ok (t : Trace) : Bool := killTotal t.ev && killBound t.ev && killOutcome t.ev && leftoversFail t.ev
 end C06
 
 /-! ### C07 — actors end when stopped or unreferenced, and only then -/
